@@ -6,11 +6,13 @@ Ltac inv H := inversion H; subst; clear H.
 (* ---------- obligations over the generated source pieces ---------- *)
 Lemma gen_image_pattern_shape :
   gen_image_match_pattern =
-  [PLit "^"; PVar "t"; PLit "(:[a-zA-Z0-9_.{}-]*)?(@sha256:[a-zA-Z0-9_.{}-]*)?$"].
+  [PLit "^"; PQuote "t"; PLit "(:[a-zA-Z0-9_.{}-]*)?(@sha256:[a-zA-Z0-9_.{}-]*)?$"].
 Proof. reflexivity. Qed.
 
-Lemma gen_image_compile_error_is_ignored : gen_image_compile_error_ignored = true.
-Proof. reflexivity. Qed.
+(* the compile error is checked, and makes IsImageMatched answer false *)
+Lemma gen_image_compile_error_handled :
+  gen_image_compile_error_ignored = false /\ gen_image_compile_error_returns_false = true.
+Proof. split; reflexivity. Qed.
 
 Lemma gen_legacy_fields_shape :
   gen_legacy_image_fields = ["containers"; "initContainers"] /\
@@ -25,7 +27,7 @@ Proof. vm_compute. reflexivity. Qed.
 
 Definition img_suffix : string := "(:[a-zA-Z0-9_.{}-]*)?(@sha256:[a-zA-Z0-9_.{}-]*)?$".
 
-Lemma img_pattern_text t : img_pattern t = Some ("^" ++ t ++ img_suffix).
+Lemma img_pattern_text t : img_pattern t = Some ("^" ++ quote_meta t ++ img_suffix).
 Proof. unfold img_pattern. rewrite gen_image_pattern_shape. cbn. reflexivity. Qed.
 
 (* ---------- take / drop / index_of ---------- *)
@@ -146,19 +148,37 @@ Qed.
 
 Section Exact.
   Variable parse : string -> option re.
-  (* Go's parser on the pattern built for a literal name: an AST that matches like [img_re]
-     (the correspondence compares the AST the harness ships with img_re for every literal name) *)
-  Hypothesis parse_lit : forall t, literal_text t = true ->
-    exists r, parse ("^" ++ t ++ img_suffix) = Some r /\ forall s, matches r s = matches (img_re t) s.
+  (* Go's parser on the pattern the code builds — "^" ++ QuoteMeta(t) ++ suffix — yields an AST that
+     matches like [img_re t] (the quoted name is read back as the literal t). The correspondence
+     compares the AST the harness ships with img_re for EVERY entry name it generates (KImgAst;
+     ast_check_sound turns that check into this hypothesis). *)
+  Hypothesis parse_quoted : forall t,
+    exists r, parse ("^" ++ quote_meta t ++ img_suffix) = Some r /\ forall s, matches r s = matches (img_re t) s.
 
-  Theorem image_exact s t :
-    literal_text t = true -> (is_matched parse s t = Ok true <-> image_ref_of t s).
+  (* for EVERY entry name: matched exactly the references name[:tag][@sha256:digest] of that name *)
+  Theorem image_exact s t : is_matched parse s t = Ok true <-> image_ref_of t s.
   Proof.
-    intros L. unfold is_matched. rewrite img_pattern_text.
-    destruct (parse_lit t L) as (r & -> & Hr). rewrite Hr. rewrite <- matches_img_re.
+    unfold is_matched. rewrite img_pattern_text.
+    destruct (parse_quoted t) as (r & -> & Hr). rewrite Hr. rewrite <- matches_img_re.
     split; intros H; [inv H; auto|rewrite H; auto].
   Qed.
+
+  (* in particular the match never panics and never fails *)
+  Corollary image_match_total s t : exists b, is_matched parse s t = Ok b.
+  Proof.
+    unfold is_matched. rewrite img_pattern_text.
+    destruct (parse_quoted t) as (r & -> & _). eauto.
+  Qed.
 End Exact.
+
+(* a name whose pattern does not compile (impossible after QuoteMeta, but the code handles it): no match, no panic *)
+Lemma image_compile_error_is_false :
+  forall (parse : string -> option re) s t p,
+    img_pattern t = Some p -> parse p = None -> is_matched parse s t = Ok false.
+Proof.
+  intros parse s t p Hp Hn. unfold is_matched. rewrite Hp, Hn.
+  destruct gen_image_compile_error_handled as [-> ->]. reflexivity.
+Qed.
 
 (* non-vacuity: a literal name, a reference of it, and a near miss *)
 Example image_ref_example : literal_text "reg/x-1" = true /\ image_ref_of "x" "x:1@sha256:ab".
@@ -167,46 +187,21 @@ Proof.
   split; right; [exists "1"|exists "ab"]; split; reflexivity.
 Qed.
 
-(* ---------- the unrestricted statement is false: entry x.y matches image xzy:1 ---------- *)
-Definition xy_ast : re :=
-  cat_of_list [Bol; lit "x"; AnyNotNL; lit "y";
-               Opt (Group (cat_of_list [lit ":"; Star (Cls tag_cls)]));
-               Opt (Group (cat_of_list [lit "@sha256:"; Star (Cls tag_cls)])); Eol].
+(* ---------- regression witnesses of the defects repaired by /repo d3b6ede ---------- *)
+(* the entry x.y no longer matches the image xzy:1, the entry a+b matches the image a+b:1, and the
+   entry a( matches a(:1 — with the ASTs Go's parser yields for the quoted patterns *)
+Definition quoted_tab : string -> option re :=
+  parse_of [("^x\.y" ++ img_suffix, Some (img_re "x.y"));
+            ("^a\+b" ++ img_suffix, Some (img_re "a+b"));
+            ("^a\(" ++ img_suffix, Some (img_re "a("))].
 
-Lemma image_exact_refuted_lemma :
-  exists s t p r,
-    img_pattern t = Some p /\
-    forall parse : string -> option re, parse p = Some r ->
-      is_matched parse s t = Ok true /\ ~ image_ref_of t s.
-Proof.
-  exists "xzy:1", "x.y", ("^" ++ "x.y" ++ img_suffix), xy_ast.
-  split; [apply img_pattern_text|].
-  intros parse Hp. split.
-  - unfold is_matched. rewrite img_pattern_text, Hp. vm_compute. reflexivity.
-  - intros (tag & dig & E & _). cbn in E. inversion E.
-Qed.
-
-(* under-selection as well: the literal image a+b is not matched by the entry a+b *)
-Definition aplusb_ast : re :=
-  cat_of_list [Bol; Plus (lit "a"); lit "b";
-               Opt (Group (cat_of_list [lit ":"; Star (Cls tag_cls)]));
-               Opt (Group (cat_of_list [lit "@sha256:"; Star (Cls tag_cls)])); Eol].
-
-Lemma image_under_selection_lemma :
-  forall parse : string -> option re,
-    parse ("^" ++ "a+b" ++ img_suffix) = Some aplusb_ast ->
-    is_matched parse "a+b:1" "a+b" = Ok false.
-Proof.
-  intros parse Hp. unfold is_matched. rewrite img_pattern_text, Hp. vm_compute. reflexivity.
-Qed.
-
-(* a name that is not a regular expression: nil *Regexp, panic *)
-Lemma image_bad_name_panics :
-  forall (parse : string -> option re) s t p,
-    img_pattern t = Some p -> parse p = None -> is_matched parse s t = Panic.
-Proof.
-  intros parse s t p Hp Hn. unfold is_matched. rewrite Hp, Hn, gen_image_compile_error_is_ignored. reflexivity.
-Qed.
+Lemma image_regressions :
+  is_matched quoted_tab "xzy:1" "x.y" = Ok false /\
+  is_matched quoted_tab "x.y:1" "x.y" = Ok true /\
+  is_matched quoted_tab "a+b:1" "a+b" = Ok true /\
+  is_matched quoted_tab "a(:1" "a(" = Ok true /\
+  is_matched quoted_tab "a:1" "a(" = Ok false.
+Proof. repeat split; vm_compute; reflexivity. Qed.
 
 (* ---------- composition table of SetImageValue ---------- *)
 Definition nonempty (s : string) : Prop := s <> "".
